@@ -22,6 +22,10 @@ CHECKS = {
    text="Proved in Coq for every configuration of the machine: for every input and every way of cutting it into buffers, the chunked run and the whole-buffer run agree on error/no-error and on the reported position (Chunk.chunks_same_control: a buffer boundary only clears the integer scan-ahead flag, which neither control nor the position fields depend on). Values: the model's run_chunks is compared with the real reader entry points of all front-ends (single- and multi-document) under 1-byte, 2-byte, every single split point, random multi-splits and refill-boundary straddles at every offset, and the reader outcome is compared with the []byte entry point, across front-ends (Tokenizer rebuilt, gen.Parser, Validator) and with sen.Parse on accepted JSON. Two genuine chunking defects are recorded as known findings.",
    technique="Coq proof of chunking-independence of control/error/position + chunk-level model/implementation correspondence",
    design='6/C03'),
+ 'C04': dict(
+   text="Proved in Coq for the model of oj.Writer (one buffer, flush after every value above WriteLimit, trailing-comma overwrite, indentation slices with the lengths regenerated from oj/writer.go, AppendJSONString over the regenerated jMap): for EVERY option combination, tree and WriteLimit the flushed bytes plus the buffer equal the unbuffered text (stream_text), hence streaming Write = in-memory call byte for byte (stream_eq). Decided by correspondence: oj.JSON, oj.Marshal, oj.Write and the gen form are byte-compared with the extracted model under Sort (32 option masks x indents x limits on fixed trees incl. depth 140, plus seeded trees with control/quote/HTML/U+2028/invalid-UTF-8 strings, int64 extremes, awkward floats), every output is parsed back and compared with the model's expected tree (members omitted, invalid UTF-8 replaced), the model's own text is checked with the reference parser per case, and pretty.JSON/WriteJSON are judged by parsing back on a width/depth/align grid. One genuine defect pinned by tests is a recorded known finding.",
+   technique="Coq proof of streaming = in-memory for all options/limits + byte-level correspondence with the extracted writer model and parse-back oracle",
+   design='6/C04'),
  'C05': dict(
    text="The denotation of JSONPath expressions (get_spec in Jp/Expr.v: child, index with negative-from-end, wildcard, descent = self and all descendants, union in listed order, slice with the documented normalisation, filter through the script denotation) is an executable Coq specification; theorems proved about it for all paths/data: position independence of every fragment, compositionality of path evaluation, the index law, and the exact membership and ascending order of a positive-step slice. jp.Expr.Get is compared with the extracted get_spec on a complete grid of slice/index/union bounds (-7..7 x steps -3..3 x lengths 0..5, as last and as inner fragment) and on seeded paths x trees (ordered comparison where the order is defined). Paths ending in a bare descent are excluded (no defined result list).",
    technique="Coq-specified denotation with proved laws + grid-exhaustive and seeded correspondence against the extracted specification",
